@@ -768,6 +768,50 @@ pub struct MatchOpts {
 
 /// substring needles with a (possibly long) run of non-letters before their first letter, and haystacks made of near
 /// misses: copies of the needle with exactly one position changed, optionally followed by a real occurrence
+/// needles that overlap themselves at a long period (`1----------------1`): the haystack holds overlapping occurrences,
+/// the earlier ones are worse (or fail behind the non-letter prefix), so the search has to restart inside a hit
+pub fn gen_self_overlap(rng: &mut Rng) -> Case {
+    let cfg = gen_cfg(rng, false);
+    let period = *rng.pick(&[1usize, 2, 3, 8, 15, 16, 17, 18, 24, 31, 32, 33]);
+    let first = *rng.pick(&['1', '-', '/', '0']);
+    let filler = *rng.pick(&['-', '.', '2', ' ']);
+    let filler = if filler == first { '+' } else { filler };
+    let mut unit = vec![first];
+    unit.extend(std::iter::repeat(filler).take(period - 1));
+    let reps = rng.range(1, 2);
+    let mut core: Vec<char> = Vec::new();
+    for _ in 0..reps {
+        core.extend(unit.iter());
+    }
+    core.push(first);
+    let kt = rng.below(3);
+    let tail: Vec<char> = gen_text(rng, &['a', 'b', 'Z'], kt);
+    let mut needle = core.clone();
+    needle.extend(tail.iter());
+    let k0 = rng.below(3);
+    let mut hay: Vec<char> = gen_text(rng, &['q', ' ', 'x'], k0);
+    // overlapping occurrences of the core: one more unit in front, the tail only behind the last one
+    for _ in 0..rng.range(1, 3) {
+        hay.extend(unit.iter());
+    }
+    hay.extend(core.iter());
+    if rng.chance(3, 4) {
+        hay.extend(tail.iter());
+    }
+    let k1 = rng.below(3);
+    hay.extend(gen_text(rng, &[' ', 'q'], k1));
+    if rng.chance(1, 5) {
+        hay.push('\u{e9}');
+    }
+    normalize_needle(&mut needle, &cfg);
+    Case {
+        hay: Text::new(hay),
+        needle: Text::new(needle),
+        cfg,
+        profile: "self-overlap",
+    }
+}
+
 pub fn gen_near_miss(rng: &mut Rng) -> Case {
     let cfg = gen_cfg(rng, false);
     let plen = *rng.pick(&[0usize, 1, 2, 3, 7, 8, 15, 16, 17, 18, 24, 31, 32, 33, 40]);
@@ -856,7 +900,9 @@ pub fn gen_case_for(idx: u64, rng: &mut Rng, pools: &Pools, props: &Props, long_
         1 if idx % 256 == 1 => gen_big(rng, pools, true),
         1 if idx % 256 == 129 => gen_saturated_tail(rng),
         2..=9 if !score_only => gen_placed(rng, pools),
-        36..=40 if anchored_heavy => gen_near_miss(rng),
+        36..=38 if anchored_heavy => gen_near_miss(rng),
+        39..=40 if anchored_heavy => gen_self_overlap(rng),
+        19 => gen_self_overlap(rng),
         10..=35 if anchored_heavy => gen_anchored(rng, pools),
         18 => gen_near_miss(rng),
         10..=17 => gen_anchored(rng, pools),
